@@ -10,6 +10,9 @@
 //   ZP <count> <seed> <threads>
 //   ZR              long double reference over all bins
 //   ZGO
+#ifdef VERIF_COVERAGE
+extern "C" void __gcov_dump(void);  // coverage build only (check/coverage.py)
+#endif
 #include <limits>
 #include <sys/wait.h>
 #include <unistd.h>
@@ -171,7 +174,21 @@ run_case(const Case &c)
         }
         return true;
       };
+      // ... and within the tolerance of the CDF property (C18), for the verdict on GetCDF itself
+      auto close_cdf = [&](const Gen &h) {
+        for (auto k : c.ks) {
+          if (k < 0 || static_cast<unsigned __int128>(k) >= n128) continue;
+          const double a = h.GetCDF(static_cast<Int>(k)), b = g.GetCDF(static_cast<Int>(k));
+          if (bits(a) == bits(b)) continue;
+          if (!(std::fabs(a - b) <= 1.0e-9)) return false;
+        }
+        return true;
+      };
+      using Other = std::conditional_t<std::is_same_v<Gen, ::dbgroup::random::ZipfDistribution<Int>>,
+                                       ::dbgroup::random::ApproxZipfDistribution<Int>,
+                                       ::dbgroup::random::ZipfDistribution<Int>>;
       bool ok = true;
+      bool cdf_ok = true;
       const Int one = static_cast<Int>(1);
       auto decoy = [&](Int lo, Int hi, double al) {
         if (hi < lo) return;
@@ -188,6 +205,20 @@ run_case(const Case &c)
         decoy(static_cast<Int>(mn + static_cast<Int>(n / 2)), mx, alpha);
         const Gen g3{mn, mx, alpha};
         ok = ok && same_cdf(g3) && seq(g3, c.pseed) == base;
+        cdf_ok = cdf_ok && close_cdf(g3);
+        // the other class with the very same parameters (and with the same bin count at another offset) just before
+        if (n <= 500000ULL) try {
+          const Other o1{mn, mx, alpha};
+          (void)o1;
+          const Other o2{static_cast<Int>(mn + one), static_cast<Int>(mx), alpha};
+          (void)o2;
+          const Other o3{mn, mx, alpha};
+          (void)o3;
+        } catch (const std::exception &) {
+        }
+        const Gen g6{mn, mx, alpha};
+        ok = ok && same_cdf(g6) && seq(g6, c.pseed) == base;
+        cdf_ok = cdf_ok && close_cdf(g6);
         decoy(static_cast<Int>(mn + one), mx, alpha);
         bool fresh_ok = true;
         std::thread t{[&] {
@@ -199,6 +230,7 @@ run_case(const Case &c)
         ok = ok && fresh_ok && same_cdf(g5);
       }
       std::printf("ZPURE history %d\n", ok ? 1 : 0);
+      std::printf("ZPURE history_cdf %d\n", cdf_ok ? 1 : 0);
     }
     // a copy / an assigned / a moved-to generator must not depend on what happens to its source afterwards:
     // the source is overwritten with another distribution of the same bin count (its storage is reused in place),
@@ -414,6 +446,9 @@ main()
           std::printf("ZEND exception %s\n", e.what());
         }
         std::fflush(stdout);
+#ifdef VERIF_COVERAGE
+        __gcov_dump();
+#endif
         _exit(0);
       }
       int st = 0;
